@@ -42,8 +42,8 @@ LEVEL_TEXT = (
 LEVEL_NOTE = "Trusted: SHA-1 digests of array bytes+dtype+shape+flags; scikit-learn's clone/get_params as the duplication mechanism named by the property."
 TECHNIQUE = "runtime purity monitor (argument digests before/after every tapped call) plus recorded call histories checked offline (repeat, read-only, refit-vs-fresh, clone, rejection with paired control)"
 FLOORS = {
-    "quick": {"eval:purity": 25000, "eval:repeat": 150, "eval:readonly": 150, "eval:history": 38, "eval:clone": 28, "eval:unfitted": 19,
-              "eval:rejection": 420, "eval:aliasing": 25, "eval:stale_state": 130, "eval:result_ownership": 100, "distinct_nontrivial": 5000},
+    "quick": {"eval:purity": 20000, "eval:repeat": 85, "eval:readonly": 85, "eval:history": 28, "eval:clone": 18, "eval:unfitted": 9,
+              "eval:rejection": 250, "eval:aliasing": 20, "eval:stale_state": 75, "eval:result_ownership": 40, "eval:reconfigure": 85, "eval:error_path": 30, "distinct_nontrivial": 5000},
     "thorough": {"eval:purity": 600000, "eval:repeat": 3800, "eval:readonly": 3800, "eval:history": 1100, "eval:clone": 750, "eval:rejection": 10000,
                  "eval:aliasing": 750, "distinct_nontrivial": 100000},
 }
@@ -53,17 +53,29 @@ CASE_TIMEOUT_S = 1200
 
 def plan(tier):
     if tier == "quick":
-        return collections.OrderedDict(specs=4, history=8, clone=6, unfitted=2, rejection=5, aliasing=8, borrowed=12)
-    return collections.OrderedDict(specs=100, history=240, clone=160, unfitted=20, rejection=120, aliasing=240, borrowed=200, ambient=17)
+        return collections.OrderedDict(specs=2, history=6, clone=4, unfitted=1, rejection=3, aliasing=6, reconfigure=4, borrowed=8)
+    return collections.OrderedDict(specs=100, history=240, clone=160, unfitted=20, rejection=120, aliasing=240, reconfigure=240, borrowed=200, ambient=17)
 
 
 # ----------------------------------------------------------------------
 # purity monitor
 # ----------------------------------------------------------------------
-def _strip(obj, depth=0):
-    """Replace estimators by their constructor parameters (minus VectorSpline2D.force_coords, the documented memory)."""
+def _strip(obj, depth=0, fitted=False):
+    """
+    Replace estimators by their constructor parameters (minus VectorSpline2D.force_coords, the documented memory) and their other
+    non-fitted instance attributes; with fitted=True (estimators passed as *arguments*, which a call must leave untouched) the
+    fitted attributes are included too.
+    """
     if depth > 6:
         return None
+    if fitted and hasattr(obj, "get_params") and not isinstance(obj, type):
+        state = {}
+        for k, v in getattr(obj, "__dict__", {}).items():
+            if type(v).__name__ in ("cKDTree", "KDTree", "LinearNDInterpolator", "CloughTocher2DInterpolator", "NearestNDInterpolator"):
+                state[k] = type(v).__name__
+            else:
+                state[k] = _strip(v, depth + 1, True)
+        return ("estimator-with-state", type(obj).__name__, state)
     if hasattr(obj, "get_params") and not isinstance(obj, type):
         try:
             params = obj.get_params(deep=False)
@@ -78,11 +90,11 @@ def _strip(obj, depth=0):
         return ("estimator", type(obj).__name__, {k: _strip(v, depth + 1) for k, v in params.items()},
                 {k: _strip(v, depth + 1) for k, v in extra.items()})
     if isinstance(obj, tuple):
-        return tuple(_strip(v, depth + 1) for v in obj)
+        return tuple(_strip(v, depth + 1, fitted) for v in obj)
     if isinstance(obj, list):
-        return [_strip(v, depth + 1) for v in obj]
+        return [_strip(v, depth + 1, fitted) for v in obj]
     if isinstance(obj, dict):
-        return {k: _strip(v, depth + 1) for k, v in obj.items()}
+        return {k: _strip(v, depth + 1, fitted) for k, v in obj.items()}
     return obj
 
 
@@ -90,7 +102,7 @@ def _arg_digests(ev):
     out = {}
     for name, value in ev.args.items():
         key = "self.params" if name == "self" else name
-        out[key] = core.digest(_strip(value))
+        out[key] = core.digest(_strip(value, fitted=(name != "self")))
     return out
 
 
@@ -348,6 +360,8 @@ def _specs(vd, rng):
         return x * 2.0 + 1.0, y * 0.5 - 3.0
 
     yield "grid_coordinates", lambda a: vd.grid_coordinates(a["region"], spacing=a["spacing"], extra_coords=a["extra"]), {"region": np.array(region), "spacing": np.array([sp, sp * 0.7]), "extra": np.array([1.0, 2.0])}
+    yield "shape_to_spacing", lambda a: (vd.coordinates.shape_to_spacing(a["region"], a["shape"]), vd.coordinates.shape_to_spacing(a["region"], a["shape"], pixel_register=True)), {"region": np.array(region), "shape": np.array([5, 7])}
+    yield "grid_coordinates_shape_array", lambda a: vd.grid_coordinates(a["region"], shape=a["shape"]), {"region": np.array(region), "shape": np.array([4, 6])}
     yield "line_coordinates", lambda a: vd.line_coordinates(a["r"][0], a["r"][1], spacing=sp), {"r": np.array(region[:2])}
     yield "profile_coordinates", lambda a: vd.profile_coordinates(a["p1"], a["p2"], 11), {"p1": np.array(region[::2]), "p2": np.array(region[1::2])}
     yield "scatter_points", lambda a: vd.scatter_points(a["region"], 50, random_state=seed, extra_coords=a["extra"]), {"region": np.array(region), "extra": np.array([3.0])}
@@ -491,6 +505,14 @@ def run_case(run, tap, stream, index, rng):
                     nsets = int(rng.integers(2, 5))
                     sets = [_dataset(rng, n=int(rng.choice([12, 18, 24, 30, 40])), ncomp=ncomp, shape2d=bool(rng.random() < 0.4), weights=bool(rng.random() < 0.5))
                             for _ in range(nsets)]
+                    if rng.random() < 0.5:  # the last dataset is the previous one with its points in another order (same point set)
+                        c_prev, d_prev, w_prev = sets[-1]
+                        flat = [np.asarray(x).ravel() for x in c_prev]
+                        perm = rng.permutation(flat[0].size)
+                        d_new = tuple(np.asarray(x).ravel()[perm] for x in d_prev) if isinstance(d_prev, tuple) else np.asarray(d_prev).ravel()[perm]
+                        w_new = None if w_prev is None else (tuple(np.asarray(x).ravel()[perm] for x in w_prev) if isinstance(w_prev, tuple) else np.asarray(w_prev).ravel()[perm])
+                        sets.append((tuple(x[perm] for x in flat), d_new, w_new))
+                        run.count("history:permuted_refit")
                     est = factory()
                     for coords, data, weights in sets:
                         est.fit(coords, data, weights)
@@ -580,6 +602,8 @@ def run_case(run, tap, stream, index, rng):
             _rejection(run, rng, vd)
         elif stream == "borrowed":
             _borrowed(run, tap, index, rng)
+        elif stream == "reconfigure":
+            _reconfigure(run, rng, vd)
         elif stream == "aliasing":
             # estimators that store copies of what they were given (C20 anchors: force_coords_, data_) must not follow
             # later in-place changes of the caller's arrays: predict repeated with equal arguments returns identical results
@@ -612,6 +636,162 @@ def run_case(run, tap, stream, index, rng):
 
 
 # ----------------------------------------------------------------------
+def _reconfigure(run, rng, vd):
+    """
+    Histories in which an object is re-configured or hits an error between uses. An estimator whose parameters were changed with
+    set_params / attribute assignment (before or after it was used) must behave like a fresh one built with the new parameters, and a
+    call that raised must leave no trace: the next valid call behaves like on a fresh object, the same invalid call raises again.
+    """
+    import sklearn.model_selection as skms
+
+    coords, data, weights = _dataset(rng, n=int(rng.choice([24, 36])), weights=True)
+    vcoords, vdata, vweights = _dataset(rng, n=24, ncomp=2, weights=True)
+    other = _dataset(rng, n=30, weights=True)
+    query = _query(rng, coords)
+    vquery = _query(rng, vcoords)
+    east, north = coords
+    span = float(min(np.ptp(east), np.ptp(north)))
+    region = [float(east.min()), float(east.max()), float(north.min()), float(north.max())]
+    forces = (east[:8].copy() + 0.1 * span, north[:8].copy())
+    vforces = (np.asarray(vcoords[0]).ravel()[:8].copy(), np.asarray(vcoords[1]).ravel()[:8].copy() + 1.0)
+    kf3 = skms.KFold(n_splits=3, shuffle=True, random_state=0)
+    X = np.column_stack(coords)
+
+    def fit_predict(est, c=coords, d=data, w=weights, q=query):
+        return est.fit(c, d, w).predict(q)
+
+    def vfit_predict(est):
+        return est.fit(vcoords, vdata, vweights).predict(vquery)
+
+    def filt(est):
+        return est.filter(coords, data, weights)
+
+    def filt_unweighted(est):
+        return est.filter(coords, data)
+
+    # (label, factory with parameters A, parameters B, observable)
+    table = [
+        ("Trend", lambda: vd.Trend(1), dict(degree=2), fit_predict),
+        ("Trend_down", lambda: vd.Trend(3), dict(degree=1), fit_predict),
+        ("Spline.damping", lambda: vd.Spline(damping=1e-2), dict(damping=1e-5), fit_predict),
+        ("Spline.mindist", lambda: vd.Spline(damping=1e-3, mindist=0.5 * span), dict(mindist=0.0), fit_predict),
+        ("Spline.force_coords", lambda: vd.Spline(damping=1e-3), dict(force_coords=forces), fit_predict),
+        ("Spline.force_coords_none", lambda: vd.Spline(damping=1e-3, force_coords=forces), dict(force_coords=None), fit_predict),
+        ("VectorSpline2D.poisson", lambda: vd.VectorSpline2D(poisson=0.5, mindist=span, damping=1e-3, force_coords=vforces), dict(poisson=-0.5), vfit_predict),
+        ("VectorSpline2D.mindist_damping", lambda: vd.VectorSpline2D(mindist=span, damping=1e-3, force_coords=vforces), dict(mindist=2 * span, damping=1e-1), vfit_predict),
+        ("KNeighbors.k", lambda: vd.KNeighbors(k=1), dict(k=3), fit_predict),
+        ("KNeighbors.reduction", lambda: vd.KNeighbors(k=3), dict(reduction=np.median), fit_predict),
+        ("Linear.rescale", lambda: vd.Linear(rescale=True), dict(rescale=False), fit_predict),
+        ("Cubic.rescale", lambda: vd.Cubic(rescale=False), dict(rescale=True), fit_predict),
+        ("SplineCV.dampings", lambda: vd.SplineCV(dampings=(1e-1, 1e-2), cv=kf3), dict(dampings=(1e-5, 1e-7)), fit_predict),
+        ("SplineCV.scoring", lambda: vd.SplineCV(dampings=(1e-1, 1e-4), cv=kf3), dict(scoring="neg_mean_absolute_error", dampings=(1e-6, 1e-2)), fit_predict),
+        ("Vector.components", lambda: vd.Vector([vd.Trend(1), vd.Trend(1)]), dict(components=[vd.Trend(2), vd.KNeighbors(k=2)]), vfit_predict),
+        ("Chain.steps", lambda: vd.Chain([("t", vd.Trend(1)), ("s", vd.Spline(damping=1e-3))]), dict(steps=[("t", vd.Trend(2)), ("k", vd.KNeighbors(k=2))]), fit_predict),
+        ("BlockReduce.reduction", lambda: vd.BlockReduce(np.mean, spacing=span / 3), dict(reduction=np.median), filt_unweighted),
+        ("BlockReduce.spacing", lambda: vd.BlockReduce(np.median, spacing=span / 3), dict(spacing=span / 2, adjust="region"), filt_unweighted),
+        ("BlockReduce.region_center", lambda: vd.BlockReduce(np.median, spacing=span / 3), dict(region=region, center_coordinates=True), filt_unweighted),
+        ("BlockReduce.shape", lambda: vd.BlockReduce(np.average, spacing=span / 3), dict(spacing=None, shape=(2, 3)), filt),
+        ("BlockMean.uncertainty_on", lambda: vd.BlockMean(spacing=span / 3), dict(uncertainty=True), filt),
+        ("BlockMean.uncertainty_off", lambda: vd.BlockMean(spacing=span / 3, uncertainty=True), dict(uncertainty=False), filt),
+        ("BlockMean.spacing", lambda: vd.BlockMean(spacing=span / 3), dict(spacing=span / 2, center_coordinates=True), filt),
+        ("CheckerBoard.region", lambda: vd.synthetic.CheckerBoard(region=(0, 5000, -5000, 0)), dict(region=(10.0, 810.0, -200.0, 100.0)),
+         lambda est: (est.predict(coords), est.grid(shape=(3, 4)), est.scatter(size=5, random_state=1))),
+        ("CheckerBoard.wavelength", lambda: vd.synthetic.CheckerBoard(region=region), dict(w_east=span / 3, amplitude=7.0),
+         lambda est: (est.predict(coords), est.grid(shape=(3, 4)))),
+        ("BlockKFold.n_splits", lambda: vd.BlockKFold(spacing=span / 3, n_splits=2, shuffle=True, random_state=5), dict(n_splits=3, random_state=6),
+         lambda est: list(est.split(X))),
+        ("BlockKFold.spacing", lambda: vd.BlockKFold(spacing=span / 3, n_splits=2), dict(spacing=span / 4, balance=False), lambda est: list(est.split(X))),
+        ("BlockShuffleSplit.test_size", lambda: vd.BlockShuffleSplit(spacing=span / 3, n_splits=2, random_state=4), dict(test_size=0.4, balancing=3),
+         lambda est: list(est.split(X))),
+    ]
+    for label, factory, change, observe in table:
+        for used_before in (True, False):
+            live = factory()
+            try:
+                if used_before:
+                    observe(live)  # the object is used with the old configuration first
+                if change == "nested":
+                    live.set_params(s__damping=1e-6, t__degree=2)
+                    fresh = vd.Chain([("t", vd.Trend(2)), ("s", vd.Spline(damping=1e-6))])
+                elif hasattr(live, "set_params") and rng.random() < 0.6:
+                    live.set_params(**change)
+                    fresh = factory()
+                    fresh.set_params(**change) if False else None
+                    fresh = type(live)(**dict(factory().get_params(deep=False), **change))
+                else:
+                    for key, value in change.items():
+                        setattr(live, key, value)
+                    base = factory()
+                    params = base.get_params(deep=False) if hasattr(base, "get_params") else {k: getattr(base, k) for k in ("spacing", "shape", "n_splits", "shuffle", "random_state", "balance", "test_size", "train_size", "balancing") if hasattr(base, k)}
+                    fresh = type(live)(**dict(params, **change))
+                got = _outcome(lambda a: observe(live), None)
+                want = _outcome(lambda a: observe(fresh), None)
+            except Exception as exc:  # noqa: BLE001
+                run.count("reconfigure_setup_error:%s:%s" % (label, type(exc).__name__))
+                continue
+            run.evaluated("reconfigure")
+            run.count("reconfigure:" + label)
+            run.mark_nontrivial("reconfigure", label, used_before, query)
+            if got != want:
+                run.violation("reconfigure", "%s: after changing parameters %s (object %s before) it does not behave like a fresh object built with the new parameters"
+                              % (label, sorted(change) if isinstance(change, dict) else change, "used" if used_before else "not used"),
+                              {"case": label, "used_before": used_before, "change": repr(change)[:300]}, key="reconfigure:" + label)
+    # error paths: a call that raises leaves no trace
+    bad_variants = [
+        ("data shorter", lambda c, d, w: (c, d[:-1] if not isinstance(d, tuple) else tuple(x[:-1] for x in d), None)),
+        ("coordinate shapes differ", lambda c, d, w: ((np.asarray(c[0])[:-2], c[1]), d, w)),
+        ("weights shorter", lambda c, d, w: (c, d, (w[:-1] if not isinstance(w, tuple) else tuple(x[:-1] for x in w)))),
+    ]
+    for scalar in (True, False):
+        c, d, w, q = (coords, data, weights, query) if scalar else (vcoords, vdata, vweights, vquery)
+        oc, od, ow = other if scalar else (vcoords, tuple(x * 2.0 for x in vdata), vweights)
+        for name, factory in _estimators(vd, rng, scalar=scalar):
+            kind, mutate = bad_variants[int(rng.integers(0, len(bad_variants)))]
+            live = factory()
+            # the rejected call uses OTHER coordinates than the later valid one
+            bc, bd, bw = mutate(oc if scalar else tuple(np.asarray(x) + 5.0 for x in oc), od, ow)
+            try:
+                live.fit(bc, bd, bw)
+                run.count("error_path_not_raised:" + name)
+                continue
+            except Exception:  # noqa: BLE001
+                pass
+            try:
+                got = core.digest(live.fit(c, d, w).predict(q), flags=False)
+                want = core.digest(factory().fit(c, d, w).predict(q), flags=False)
+            except Exception as exc:  # noqa: BLE001
+                run.count("error_path_setup_error:%s:%s" % (name, type(exc).__name__))
+                continue
+            run.evaluated("error_path")
+            run.count("error_path:" + name)
+            if got != want:
+                run.violation("error_path", "%s: after a fit() call that raised (%s) a valid fit on the same object predicts differently from a fresh estimator" % (name, kind),
+                              {"estimator": name, "rejected_call": kind}, key="error-path:" + name)
+    # functions: the same invalid call raises every time, also after valid calls in between
+    invalid_calls = [
+        ("longitude_continuity", lambda: vd.longitude_continuity(None, [-250.0, 10.0, -20.0, 20.0]), lambda: vd.longitude_continuity(None, [-50.0, 10.0, -20.0, 20.0])),
+        ("longitude_continuity_lat", lambda: vd.longitude_continuity([np.array([10.0]), np.array([95.0])], [0.0, 20.0, -20.0, 20.0]), lambda: vd.longitude_continuity([np.array([10.0]), np.array([5.0])], [0.0, 20.0, -20.0, 20.0])),
+        ("check_region", lambda: vd.grid_coordinates([3.0, 1.0, 0.0, 1.0], shape=(2, 2)), lambda: vd.grid_coordinates([1.0, 3.0, 0.0, 1.0], shape=(2, 2))),
+        ("block_split_both", lambda: vd.block_split(coords, spacing=span / 3, shape=(2, 2)), lambda: vd.block_split(coords, spacing=span / 3)),
+        ("make_xarray_grid_names", lambda: vd.make_xarray_grid((np.arange(3.0), np.arange(2.0)), np.ones((2, 3)), data_names=["a", "b"]), lambda: vd.make_xarray_grid((np.arange(3.0), np.arange(2.0)), np.ones((2, 3)), data_names=["a"])),
+        ("rolling_window_size", lambda: vd.rolling_window(coords, size=span * 50, spacing=span), lambda: vd.rolling_window(coords, size=span / 2, spacing=span / 4)),
+        ("BlockKFold_too_many", lambda: list(vd.BlockKFold(shape=(1, 2), n_splits=5).split(X)), lambda: list(vd.BlockKFold(shape=(2, 2), n_splits=2).split(X))),
+    ]
+    for name, bad, good in invalid_calls:
+        outcomes = []
+        for call in (bad, bad, good, bad):
+            try:
+                call()
+                outcomes.append("returned")
+            except Exception as exc:  # noqa: BLE001
+                outcomes.append("raised")
+        run.evaluated("error_path")
+        run.count("error_path_function:" + name)
+        if outcomes != ["raised", "raised", "returned", "raised"]:
+            run.violation("error_path", "%s: the sequence invalid, invalid, valid, invalid gave %s (an invalid call must raise every time)" % (name, outcomes),
+                          {"call": name, "outcomes": outcomes}, key="error-path-fn:" + name)
+
+
 class _NullRun:
     """Swallows what a borrowed workload reports: only the C20 purity monitors judge those executions."""
 
